@@ -111,7 +111,7 @@ def _load(key: str) -> bytes:
 SYNTH_EXT = {"rtf-big-picture": ".rtf", "mbox-raw-8bit-headers": ".mbox", "7z-huge-file-count": ".7z", "7z-huge-stream-count": ".7z", "zip-huge-entry-count": ".zip",
              "zip-ascii-then-nonascii": ".zip", "mbox-ascii-then-nonascii": ".mbox",
              "7z-self-referential-encoded-header": ".7z", "7z-encoded-header-chain": ".7z",
-             "tar-absolute-member-names": ".tar", "zip-absolute-member-names": ".zip"}
+             "tar-absolute-member-names": ".tar", "zip-absolute-member-names": ".zip", "tar-latin1-member-names": ".tar"}
 
 
 def _synthetic(name: str) -> bytes:
@@ -138,6 +138,17 @@ def _synthetic(name: str) -> bytes:
             body, off = first, 18
         start = _st.pack("<QQI", off, len(hdr), _zl.crc32(hdr) & 0xFFFFFFFF)
         return b"7z\xbc\xaf\x27\x1c\x00\x04" + _st.pack("<I", _zl.crc32(start) & 0xFFFFFFFF) + start + body + hdr
+    if name == "tar-latin1-member-names":
+        # member names in a legacy 8-bit encoding (a tar written on a Latin-1 system): tarfile decodes them with surrogateescape, so
+        # the results' file metadata carries lone surrogates
+        import io as _io, tarfile as _tf
+        buf = _io.BytesIO()
+        with _tf.open(fileobj=buf, mode="w", format=_tf.GNU_FORMAT, encoding="latin-1") as t:
+            for n_, d_ in (("plain.txt", b"qb00001z plain name\n"), ("r\xe9sum\xe9.txt", b"qb00002z latin-1 name\n"), ("d\xefr/\xfcber.md", b"# qb00003z\n")):
+                ti = _tf.TarInfo(n_)
+                ti.size = len(d_)
+                t.addfile(ti, _io.BytesIO(d_))
+        return buf.getvalue()
     if name in ("tar-absolute-member-names", "zip-absolute-member-names"):
         # members stored under absolute names (tar -P, backup tools, raw ZipInfo writers) next to relative ones
         import io as _io, tarfile as _tf, zipfile as _zf
